@@ -97,6 +97,12 @@ class Ctx:
         self.obligations.append(o)
         return o
 
+    def abstain(self, what: str, *, at: FuncInfo | Module | None = None, why: str = "condition / value form not recognised") -> None:
+        """The code at an anchor is written in a form the rule cannot interpret: the rule has no instance there.  Recorded (evidence shows it as
+        a discharged obligation marked `abstained`) - never a violation: ambiguity must not raise an alarm."""
+        self.notes.setdefault("abstained", []).append(f"{self._rule}: {what} ({why})")
+        self.ob(f"abstained: {what}", True, at=at, construct=f"abstained {what}", msg=why)
+
     def floor(self, what: str, count: int, minimum: int) -> None:
         """Vacuity guard.  `minimum` is the count confirmed by hand on the pinned tree; the armed floor is 60% of
         it (at least 1) so that an ordinary refactoring that merges or removes a few instances is not reported as an
